@@ -217,7 +217,9 @@ def run(prop, tier, seed, args):
             # a counter-model is reproduced when the real code fails the contract natively: a violated check for a check
             # obligation; an escaping exception / a hang for an "unexpected exception" obligation
             if ob["kind"] == "exc":
-                reproduced = nat["outcome"] in ("exception", "timeout")
+                # (a VIOLATED CHECK of the same harness on the same input also counts: the symbolic run left the engine's picture of the changed code
+                # through an exception, the real code fails the contract on that very input -- `observed` names the check)
+                reproduced = nat["outcome"] in ("exception", "timeout", "violation")
             else:
                 reproduced = nat["outcome"] in ("violation", "timeout") or (nat["outcome"] == "exception" and not nat["detail"].startswith("TypeError: "))
             data = {"kind": "harness", "obligation": ob["ident"], "harness": r["harness"], "case": r["case"], "params": ob.get("params"),
